@@ -112,6 +112,15 @@ def cases(shard, tier):
                 seconds += ['window', 'data', 'dtype']
             for second in seconds:
                 yield dict(shard, n=n, frm=f, to=t, user=user, itype=it, second=second)
+            if it is None and user in ('none', 'index_min'):
+                # index-less frame whose first channel holds several samples per row: INDEX-MAX counts rows, not samples
+                yield dict(shard, n=n, frm=f, to=t, user=user, itype=it, second='none', first_width=3)
+            if it is not None and user == 'none' and n >= 3 and (f, t) == (0, None):
+                # the user pins INDEX-MAX to exactly the value the previous write derived, then writes a window
+                yield dict(shard, n=n, frm=f, to=t, user=user, itype=it, second='pin-derived-max')
+                if shard['dtype'].startswith('float'):
+                    # the first write's index data held a NaN; the second write has the repaired data
+                    yield dict(shard, n=n, frm=f, to=t, user=user, itype=it, second='after-nan-data')
             if it is not None and user == 'none' and n >= 2:
                 # a first write is refused inside the frame's set-up (2-D index data with other values), then the real one
                 yield dict(shard, n=n, frm=f, to=t, user=user, itype=it, second='after-refused-2d-index')
@@ -212,6 +221,13 @@ def run_case(c):
     dtype, n = c['dtype'], c['n']
     vals = values(dtype, c['pattern'], n)
     arr = S.arr_spec(dtype, [n], to_pat(dtype, vals))
+    fw = c.get('first_width')
+    if fw:
+        # every row holds fw samples (the row's index value first)
+        wide = []
+        for p_ in to_pat(dtype, vals):
+            wide += [p_] * fw
+        arr = S.arr_spec(dtype, [n, fw], wide)
     fkw = {}
     route = c.get('itype_route', 'kw')
     if c['itype'] and route == 'kw':
@@ -260,10 +276,15 @@ def run_case(c):
             return Outcome('harness', [("C13:harness:2d-index-accepted", f"{c}")], True)
         except Exception:  # noqa
             pass
+    if c['second'] == 'after-nan-data':
+        nan_pat = list(to_pat(dtype, vals))
+        nan_pat[0] = 0x7FF8000000000000 if dtype == 'float64' else 0x7FC00000
+        write(S.arr_spec(dtype, [n], nan_pat), 0, None)          # whatever this gives, the next write has clean data
+    pinned = None
     data, st = write(arr, c['frm'], c['to'])
     exp_vals, exp_dtype, frm, to = vals, dtype, c['frm'], c['to']
-    tag = 'first' if c['second'] != 'after-refused-2d-index' else 'after-refused-write'
-    if st == 'ok' and c['second'] not in ('none', 'after-refused-2d-index'):
+    tag = {'after-refused-2d-index': 'after-refused-write', 'after-nan-data': 'after-nan-write'}.get(c['second'], 'first')
+    if st == 'ok' and c['second'] not in ('none', 'after-refused-2d-index', 'after-nan-data'):
         tag = 'second-' + c['second']
         if c['second'] == 'window':
             frm, to = 1, 3
@@ -273,6 +294,16 @@ def run_case(c):
             if st_op != 'ok':
                 return Outcome('harness', [("C13:harness:index-type-assignment-failed", f"{st_op} | {c}")], False)
             data, st = write(arr, frm, to)
+        elif c['second'] == 'pin-derived-max':
+            from fractions import Fraction as _F
+            mx = max(exact(dtype, vals))
+            pin = float(mx)
+            st_op = S.apply_op(b, {'op': 'set', 'h': 'F0', 'attr': 'index_max', 'part': 'value', 'value': pin})
+            if st_op != 'ok' or _F(pin) != mx:
+                return Outcome('n/a', [], False)
+            frm, to = 0, 2
+            data, st = write(arr, frm, to)
+            pinned = mx
         elif c['second'] == 'data':
             bits = 8 * DTYPE_SIZES[dtype]
             hi = float('inf') if dtype.startswith('f') else (2 ** bits - 1 if dtype.startswith('u') else 2 ** (bits - 1) - 1)
@@ -289,12 +320,14 @@ def run_case(c):
         lf = R.split_logical_files(R.parse_physical(data))[0]
         fo = lf.objects('FRAME')[0]
         exp = expectation(exp_dtype, exp_vals, frm, to if to is not None else len(exp_vals), c['itype'], c['user'])
+        if pinned is not None:
+            exp['INDEX-MAX'] = ('eq', pinned)           # assigned by the user between the writes
         for code, d in compare(exp, fo):
             cls = _classify(c, code)
             viol.append((f"C13:{tag}:{code}{cls}", f"{d} | {c} values={exp_vals[:5]}"))
         # the rows themselves must be those of the data passed to this write, in the declared representation
         hi = to if to is not None else len(exp_vals)
-        want_rows = [int(p).to_bytes(DTYPE_SIZES[exp_dtype], 'big') + bytes([k])
+        want_rows = [int(p).to_bytes(DTYPE_SIZES[exp_dtype], 'big') * (c.get('first_width') or 1) + bytes([k])
                      for k, p in list(enumerate(to_pat(exp_dtype, exp_vals)))[frm:hi]]
         got_rows = []
         for _, r, _s in lf.records:
